@@ -168,9 +168,13 @@ pub mod payload {
     /// Decode varint-prefixed data payload.
     pub fn decode<R: io::Read + ?Sized>(reader: &mut R) -> Result<Vec<u8>, wire::Error> {
         let size = VarInt::decode(reader)?;
-        let mut data = vec![0; *size as usize];
-        reader.read_exact(&mut data[..])?;
+        // Nb. The size is chosen by the remote: don't allocate before the data is there.
+        let mut data = Vec::new();
+        io::Read::read_to_end(&mut io::Read::take(&mut *reader, *size), &mut data)?;
 
+        if (data.len() as u64) < *size {
+            return Err(io::Error::from(io::ErrorKind::UnexpectedEof).into());
+        }
         Ok(data)
     }
 }
